@@ -1,20 +1,22 @@
 (* Events.v -- model of the progress-event machinery of py7zr extraction (property C18).
 
-   What is modelled (py7zr/py7zr.py; line numbers of /repo at commit 001b922, they move with unrelated fixes):
-   - SevenZipFile._extract            l.582  q.put(("pre",..)) before any worker runs,
-                                      l.652  q.put(("post",..)) after Worker.extract returned (all workers joined);
-   - Worker.extract (1293-1368)       which lists of members are walked by which thread:
+   What is modelled (py7zr/py7zr.py; line numbers of /repo at commit 52ec04e, they move with unrelated fixes):
+   - SevenZipFile._extract            l.559-565 a reporter left by an earlier extraction of the session is sent the
+                                      sentinel and joined before the new reporter thread is started;
+                                      l.587  q.put(("pre",..)) before any worker runs,
+                                      l.657  q.put(("post",..)) after Worker.extract returned (all workers joined);
+   - Worker.extract (1302-1377)       which lists of members are walked by which thread:
                                       no streams: the empty-stream members on the calling thread;
                                       one folder: ALL members of the archive on the calling thread;
                                       several folders: the empty-stream members first (calling thread), then one
                                       walk per folder that has at least one registered target -- sequentially when
                                       not `parallel` (password / file object given), one thread per folder otherwise;
-   - Worker._extract_single (1398-1475) per member f of the walked list: "s" (name, compressed), then -- only when f
+   - Worker._extract_single (1407-1484) per member f of the walked list: "s" (name, compressed), then -- only when f
                                       has a registered target and is not an empty stream -- Worker.decompress WITH q,
                                       then "e" (name, str(f.uncompressed)).  Members without a target get s and e too;
-                                      _check() (1477) decompresses them WITHOUT q: no "u";
-   - Worker.decompress (1487-1535)    the update loop (1516-1531), with the clock as an input;
-   - SevenZipFile.reporter (1062-1085) and close() (1176-1182): FIFO consumer, None sentinel, join(1).
+                                      _check() (1486) decompresses them WITHOUT q: no "u";
+   - Worker.decompress (1496-1544)    the update loop (1525-1540), with the clock as an input;
+   - SevenZipFile.reporter (1072-1095) and close() (1187-1191): FIFO consumer, None sentinel, join() without timeout.
 
    The queue is FIFO; an interleaving of the worker threads is a list of worker indices (who enqueues next).
    Events carry the member id as a ghost field so that theorems can speak about "the events of member i";
@@ -227,24 +229,27 @@ Fixpoint completions (free : Z) (items : list (Z * Z)) : list Z :=
   end.
 Definition last_completion (free : Z) (items : list (Z * Z)) : Z := last (completions free items) free.
 
-(* close() at time tc: put the sentinel, join(1), is_alive().  Returns (raised InternalError, time close() returns
-   or raises, handler calls completed by then, handler calls completed later) *)
-Definition close_model (free : Z) (items : list (Z * Z)) (tc : Z) : bool * Z * Z * Z :=
+(* close() at time tc: put the sentinel behind everything queued, join() (no timeout).  Returns (time close()
+   returns, handler calls completed by then, handler calls completed later) *)
+Definition close_model (free : Z) (items : list (Z * Z)) (tc : Z) : Z * Z * Z :=
   let cs := completions free items in
-  let fin := Z.max (last_completion free items) tc in      (* the reporter dequeues the sentinel *)
-  let raised := tc + 1024 <? fin in
-  let tret := if raised then tc + 1024 else fin in
-  (raised, tret, Z.of_nat (length (filter (fun d => d <=? tret) cs)),
-   Z.of_nat (length (filter (fun d => tret <? d) cs))).
+  let tret := Z.max (last_completion free items) tc in     (* the reporter dequeues the sentinel and ends *)
+  (tret, Z.of_nat (length (filter (fun d => d <=? tret) cs)), Z.of_nat (length (filter (fun d => tret <? d) cs))).
 
-(* two reporter threads on one queue (second extraction on the same object without close()): every item goes to
-   whichever thread dequeues it *)
-Fixpoint split2 (choice : list bool) (q : list event) : list event * list event :=
+(* several extractions in one session: _extract puts the sentinel for the previous reporter and joins it before it
+   starts the next one, so the consumers of the queue never overlap: reporter k handles the items up to the k-th
+   sentinel, reporter k+1 starts on what is behind it *)
+Fixpoint reporter_rest (q : list (option event)) : list event * bool * list (option event) :=
   match q with
-  | [] => ([], [])
-  | e :: r =>
-      let '(a, b) := split2 (tl choice) r in
-      if hd false choice then (a, e :: b) else (e :: a, b)
+  | [] => ([], false, [])
+  | None :: r => ([], true, r)
+  | Some e :: r => let '(d, fin, rest) := reporter_rest r in (e :: d, fin, rest)
+  end.
+(* the accounts received by the successive callbacks of a session *)
+Fixpoint accounts (fuel : nat) (q : list (option event)) : list (list event) :=
+  match fuel, q with
+  | O, _ | _, [] => []
+  | S f, _ => let '(d, fin, rest) := reporter_rest q in d :: (if fin then accounts f rest else [])
   end.
 
 (* ---------------------------------------------------------------- tree protocol *)
@@ -286,9 +291,9 @@ Definition events_dispatch (fn : Z) (a : tree) : tree :=
   (* FN 263 ev_dec_loop : (size chunks) -> (updates final_remaining) *)
   | 263 => let '(us, r) := dec_loop (of_TI (tnth a 0)) 0 0 (map of_pair (of_TL (tnth a 1))) in
            TL [TL (map TI us); TI r]
-  (* FN 264 ev_close : (free items tc) -> (raised t_return n_before n_after) *)
-  | 264 => let '(r, t, nb, na) := close_model (of_TI (tnth a 0)) (map of_pair (of_TL (tnth a 1))) (of_TI (tnth a 2)) in
-           TL [t_bool r; TI t; TI nb; TI na]
+  (* FN 264 ev_close : (free items tc) -> (t_return n_before n_after) *)
+  | 264 => let '(t, nb, na) := close_model (of_TI (tnth a 0)) (map of_pair (of_TL (tnth a 1))) (of_TI (tnth a 2)) in
+           TL [TI t; TI nb; TI na]
   (* FN 265 ev_emitted_mp : shape -> events *)
   | 265 => t_events (emitted_mp (of_shape a))
   (* FN 266 ev_processed : shape -> ids of the processed members *)
@@ -297,5 +302,7 @@ Definition events_dispatch (fn : Z) (a : tree) : tree :=
   | 267 => let '(d, fin) := reporter (map (of_opt of_event) (of_TL a)) in TL [t_events d; t_bool fin]
   (* FN 268 ev_chunks_ok : (size chunks) -> bool *)
   | 268 => t_bool (chunks_ok (of_TI (tnth a 0)) (map of_pair (of_TL (tnth a 1))))
+  (* FN 269 ev_accounts : (queue as list of () | (event)) -> (account ...) *)
+  | 269 => let q := map (of_opt of_event) (of_TL a) in TL (map t_events (accounts (S (length q)) q))
   | _ => TL [TI (-2)]
   end.
